@@ -146,6 +146,12 @@ def build_kmodel(force=False):
             for it in se.group(1).split():
                 if it not in items:
                     items.append(it)
+    # the extraction needs the .vo of EVERY extracted module, not only the closure of the property being checked
+    # (a thorough run's `make clean` leaves only that closure behind)
+    targets = ["theories/%s.vo" % m.replace(".", "/") for m in mods]
+    rc, out = run_cmd(["make", "-j", str(min(16, os.cpu_count() or 4))] + targets, cwd=COQ, timeout=3000)
+    if rc:
+        return False, "building the modules to extract failed:\n%s" % out[-3000:]
     allv = os.path.join(ext, "ExtractAll.v")
     with open(allv, "w") as f:
         f.write("From Coq Require Import Extraction ExtrOcamlBasic ExtrOcamlNativeString.\n")
